@@ -1,4 +1,6 @@
-import DswModel.Tie.ArithStubs
+import DswModel.Tie.OpAdd
+import DswModel.Tie.OpMul
+import DswModel.Tie.OpDiv
 import DswModel.Lemmas.Convert
 /-!
 # Translation tie — `bit_to_number`, `number_to_bit`
@@ -14,7 +16,7 @@ Proof plan: the model-side helper lemmas say that the decimal-string arithmetic 
 a bound `n < 2 ^ k`); the final `if/elif/else` is `fitBits`.
 -/
 namespace Dsw.Tie
-open Dsw Dsw.Py Dsw.Tie.Stub
+open Dsw Dsw.Py
 
 namespace BitsTie
 
